@@ -346,7 +346,12 @@ impl<'a> ReadAdapter<'a> {
             0 => {
                 let buf = self.non_empty_reader_buffer_mut()?;
                 if buf.len() < N {
-                    return Err(DeserializationError::UnexpectedEOF);
+                    // The reader's buffer holds fewer than N bytes, but we haven't necessarily
+                    // reached eof yet, so fall back to filling `self.buf`
+                    self.buffer_at_least(N)?;
+                    output.copy_from_slice(&self.buffer()[..N]);
+                    self.pos += N;
+                    return Ok(output);
                 }
                 // SAFETY: This copy is guaranteed to be safe, as we have validated above
                 // that `buf` has at least N bytes, and `output` is defined to be exactly
@@ -397,10 +402,9 @@ impl<'a> ReadAdapter<'a> {
                     },
                     // We didn't get enough, but haven't necessarily reached eof yet, so fall back
                     // to filling `self.buf`
-                    m => {
-                        let needed = N - (m + n);
+                    _ => {
                         drop(reader_buf);
-                        self.buffer_at_least(needed)?;
+                        self.buffer_at_least(N)?;
                         debug_assert!(self.buffer().len() >= N, "expected buffer to be at least {N} bytes after call to buffer_at_least");
                         // SAFETY: This is guaranteed to be an in-bounds copy
                         unsafe {
@@ -430,17 +434,25 @@ impl<'a> ReadAdapter<'a> {
     /// Fill `self.buf` with `count` bytes
     ///
     /// This should only be called when we can't read from the reader directly
-    fn buffer_at_least(&mut self, mut count: usize) -> Result<(), DeserializationError> {
-        // Read until we have at least `count` bytes, or until we reach end-of-file,
-        // which ever comes first.
+    fn buffer_at_least(&mut self, count: usize) -> Result<(), DeserializationError> {
+        // Read until we have at least `count` unread bytes in `self.buf`, or until we reach
+        // end-of-file, which ever comes first.
         loop {
-            // If we have successfully read `count` bytes, we're done
-            if count == 0 || self.buffer().len() >= count {
+            // If we have successfully buffered `count` bytes, we're done
+            if self.buffer().len() >= count {
                 break Ok(());
             }
 
             // This operation will return an error if the underlying reader hits EOF
             self.non_empty_reader_buffer_mut()?;
+
+            // `read_exact` truncates `self.buf` once it has been fully consumed, but leaves
+            // `self.pos` pointing past its end; make `self.pos` refer to the bytes we are about
+            // to append.
+            if self.pos > self.buf.len() {
+                self.buf.clear();
+                self.pos = 0;
+            }
 
             // Extend `self.buf` with the bytes read from the underlying reader.
             //
@@ -451,7 +463,6 @@ impl<'a> ReadAdapter<'a> {
             let consumed = buf.len();
             self.buf.extend_from_slice(buf);
             reader.consume(consumed);
-            count = count.saturating_sub(consumed);
         }
     }
 }
